@@ -158,10 +158,18 @@ type Worker struct {
 	Solver *smt.Solver
 }
 
-func (P *Program) NewWorker(solverName string, timeoutMs, seed int) (*Worker, error) {
+func (P *Program) NewWorker(solverName string, timeoutMs, seed int, cross ...string) (*Worker, error) {
 	s, err := smt.StartSolver(solverName, timeoutMs, seed)
 	if err != nil {
 		return nil, err
+	}
+	if len(cross) > 0 && cross[0] != "" && cross[0] != solverName {
+		c, err := smt.StartSolver(cross[0], timeoutMs, seed)
+		if err != nil {
+			s.Close()
+			return nil, err
+		}
+		s.Cross = c
 	}
 	i := &interpreter{
 		prog:               P.Prog,
@@ -253,6 +261,7 @@ type Options struct {
 	Merge         bool // guarded merging of pure regions (off by default: it trades paths for harder formulas)
 	Verbose       bool
 	Footprint     bool
+	CrossSolver   string // second solver for verdict cross-checking ("" = off)
 }
 
 func (w *Worker) RunPath(fn *ssa.Function, item WorkItem, o *Options) (res *PathResult) {
@@ -361,6 +370,7 @@ type HarnessResult struct {
 	SolverQ      int
 	SolverSec    float64
 	SolverErrs   int
+	CrossChecked int
 	NonTrivial   int64 // paths with >=1 symbolic decision that reached >=1 check
 	Unreached    []string
 }
@@ -394,6 +404,7 @@ func (P *Program) Explore(fn *ssa.Function, o Options) *HarnessResult {
 					hr.SolverQ += w.Solver.Queries
 					hr.SolverSec += w.Solver.Seconds
 					hr.SolverErrs += w.Solver.Errors
+					hr.CrossChecked += w.Solver.CrossN
 					if w.Solver.Errors > 0 {
 						hr.Incomplete = append(hr.Incomplete, "solver error: "+trunc(w.Solver.LastErr, 300))
 					}
@@ -435,7 +446,7 @@ func (P *Program) Explore(fn *ssa.Function, o Options) *HarnessResult {
 
 				if w == nil {
 					var err error
-					w, err = P.NewWorker(o.Solver, o.TimeoutMs, o.Seed)
+					w, err = P.NewWorker(o.Solver, o.TimeoutMs, o.Seed, o.CrossSolver)
 					if err != nil {
 						mu.Lock()
 						hr.EngineErrors = append(hr.EngineErrors, err.Error())
